@@ -909,7 +909,7 @@ def strategy(tier):         # noqa: F811
     triple = st.fixed_dictionaries({
         'sched': st.just(True),
         'causes': st.lists(st.sampled_from(CAUSES), min_size=3, max_size=3),
-        'choices': st.lists(st.integers(0, 4), max_size=30)})
+        'choices': st.lists(st.integers(0, 4), min_size=12, max_size=30)})
     return st.one_of(_seq_strategy(tier), _seq_strategy(tier), triple)
 
 
